@@ -9,6 +9,7 @@ import datetime
 import logging
 
 from dashlive.utils.date_time import from_isodatetime, to_iso_datetime
+from dashlive.utils.timezone import UTC
 from .dash_option import DashOption
 from .http_error import FailureCount, ManifestHttpError
 from .types import OptionUsage
@@ -51,6 +52,12 @@ def ast_from_string(value: str) -> datetime.datetime | str:
     except ValueError as err:
         logging.warning('Failed to parse availabilityStartTime: %s', err)
         raise err
+    if not isinstance(value, datetime.datetime):
+        raise ValueError('availabilityStartTime must be a date and time')
+    if value.tzinfo is None:
+        # a date-time without a UTC offset is taken to be UTC, all timing
+        # calculations use timezone aware values
+        value = value.replace(tzinfo=UTC())
     return value
 
 def ast_to_string(value: datetime.datetime | str | None) -> str:
